@@ -68,6 +68,12 @@ InvC11 ==
         LET e == Last  m == ModelOutcome(pre, e) IN
         /\ Report("C11", C11order(pre, e))
         /\ (SupportedRun(m, e) => Report("C11", Canons(m.data.trace) = Canons(e.out.data.trace)))
+        \* the value bound to a canon variable is observable through the arguments of the calls that read it: the requests
+        \* issued in this run carry the arguments the model computes from the recorded canonical value ...
+        /\ ((SupportedRun(m, e) /\ "canon" \in aux.feats) => Report("C11", ReqKeys(m.reqs) = ReqKeys(e.out.reqs)))
+        \* ... and a call recorded earlier with arguments read from a canon variable is re-traversed with the same arguments:
+        \* in an honest history InstructionParametersMismatch (20017) means a peer bound another value than the recorded one
+        /\ (("canon" \in aux.feats /\ e.out.died = "") => Report("C11", e.out.code # 20017))
 \* C13: the streams hold exactly the merged appends (seen through the local canons) and the stream folds visit each
 \* value once (seen through the requests issued from fold bodies): both as bags against the model
 InvC13 ==
